@@ -113,6 +113,9 @@ class GateSemanticsWorld(_DeviceBase):
         self.history = {}
         self.sig = set()
         self.circ_pool = []       # long-lived circuit objects {"obj", "gates", "n"}: simulated repeatedly, modified in place in between
+        from tangelo.linq import get_backend
+        self.backends["sympy_shots"] = get_backend("sympy", n_shots=self.config["n_shots"])      # "sampled mode" of the symbolic backend
+        self.model_shots["sympy_shots"] = self.config["n_shots"]
         import os
         os.environ["TANGELO_VERIF"] = "1"     # enables the guarded chunk-size knob (only read when TANGELO_VERIF_CHUNK_SIZE is set)
 
@@ -144,6 +147,14 @@ class GateSemanticsWorld(_DeviceBase):
                 gates = D.gen_unitary_gates(rng, n, rng.randint(0, 4), kinds=kinds)      # 0 gates: the empty-circuit shortcut of Backend.simulate
                 if rng.random() < 0.3 and n >= 2:
                     gates.append(C.gen_gate_j(rng, n, allow=("xx", "cswap", "mc", "swap")))     # partly outside sympy's gate set
+                elif rng.random() < 0.35 and n >= 2:
+                    # the same rotation before and after a gate that uses the rotated qubit as its control
+                    q, t = rng.sample(range(n), 2)
+                    rot = rng.choice(["RX", "RY", "RZ", "PHASE"])
+                    gates = gates[:2] + [[rot, [q], None, C.gen_angle(rng), False], [rng.choice(["CNOT", "CZ", "CRY"]), [t], [q], "", False],
+                                         [rot, [q], None, C.gen_angle(rng), False]]
+                    if gates[-2][0] == "CRY":
+                        gates[-2][3] = C.gen_angle(rng)
             else:
                 gates = D.gen_unitary_gates(rng, n, rng.randint(0, 9), kinds=cfg["kinds"])
             if rng.random() < 0.2:
@@ -156,6 +167,11 @@ class GateSemanticsWorld(_DeviceBase):
             return op
         b = rng.choice(["cirq_shots", "cirq_shots", "stub"])
         perm = rng.random() < 0.45
+        if self.sympy_used < cfg["sympy_budget"] and rng.random() < 0.12:
+            b, n = "sympy_shots", min(n, 3)
+            gates = D.gen_permutation_gates(rng, n, rng.randint(0, 3)) if perm else D.gen_unitary_gates(rng, n, rng.randint(1, 3), kinds=("one", "par", "c", "cpar", "swap"))
+            gates = [g for g in gates if g[0] in SYMPY_OK and len(g[2] or []) <= 1]
+            return {"k": "sampled", "b": b, "gates": gates, "n": n, "init": None}
         gates = D.gen_permutation_gates(rng, n, rng.randint(0, 6)) if perm else D.gen_unitary_gates(rng, n, rng.randint(1, 7), kinds=cfg["kinds"])
         init = None
         if b == "cirq_shots" and rng.random() < cfg["init_p"]:
@@ -288,9 +304,9 @@ class GateSemanticsWorld(_DeviceBase):
         init_sut = None
         if init_ref is not None:
             init_sut = to_order(init_ref, n, order) if order else init_ref
-            if op["b"] == "sympy":
+            if op["b"].startswith("sympy"):
                 init_sut = np.asarray(init_sut).reshape(-1, 1)
-        if init_sut is not None and op["b"] != "sympy":
+        if init_sut is not None and not op["b"].startswith("sympy"):
             init_sut = np.array(init_sut, dtype=np.complex128)       # the caller's own complex array
         init_keep = None if init_sut is None else np.array(init_sut, copy=True)
         self.sig.add((k, op["b"], n, min(len(op["gates"]), 6), init_ref is not None, str(op.get("bias"))))
@@ -337,6 +353,8 @@ class GateSemanticsWorld(_DeviceBase):
         else:
             ns = b.n_shots
             bias = op.get("bias")
+            if op["b"] == "sympy_shots":
+                self.sympy_used += 1
             rngseam.SEAM.arm(vector_bias=bias)
             b0 = rngseam.SEAM.vector_biased
             import os
@@ -360,8 +378,11 @@ class GateSemanticsWorld(_DeviceBase):
                 ctx.fault("rng_extreme")
             ctx.outcome(k, "ok")
             ctx.check("C01.sampled")
-            fnum = {kk: float(v) for kk, v in f.items()}
-            if not D.is_shot_histogram(fnum, ns) or any(len(kk) != n for kk in fnum):
+            fnum = {kk: _num(v) for kk, v in f.items()}
+            if op["b"] == "sympy_shots" and all(len(kk) == n for kk in fnum) and D.freq_close(fnum, exact, 1e-6):
+                # the symbolic backend may answer a shot budget with the exact law itself (it does, at the pinned commit)
+                ctx.probe("C01.sympy_with_shot_budget")
+            elif not D.is_shot_histogram(fnum, ns) or any(len(kk) != n for kk in fnum):
                 V.append(Violation("C01", "not-a-shot-histogram", site, {"frequencies": dict(list(fnum.items())[:6]), "n_shots": ns}))
             else:
                 outside = [kk for kk in fnum if exact.get(kk, 0.0) < 1e-12]
